@@ -222,6 +222,14 @@ func getSignedAttributes(req *signature.SignRequest, algorithm string) (map[stri
 		if _, ok := extAttrs[key]; ok {
 			return nil, &signature.InvalidSignRequestError{Msg: fmt.Sprintf("%q already exists in the extAttrs", key)}
 		}
+		for _, headerKey := range headerKeys {
+			// headers defined by the envelope specification cannot be set
+			// through extended attributes, even if the request does not
+			// use them (e.g. expiry).
+			if strings.EqualFold(key, headerKey) {
+				return nil, fmt.Errorf("attribute key:%s repeated", key)
+			}
+		}
 		extAttrs[key] = elm.Value
 		if elm.Critical {
 			crit = append(crit, key)
